@@ -158,6 +158,12 @@ def run(ctx):
                 viol.append(dict(v, property='C17', kind='not-each-once' if v['property'] == 'C02' else v['kind'], witness={'spec': spec, 'all_lower': lower}))
     for i in range(ctx.scale(10, 50)):
         spec = prince_spec(rng, ngram=2 + i % 4)
+        if i == 2:
+            # whatever the seed: groups of four and three equally probable words and two equally probable masks; every N is tried
+            spec = dict(spec, terminals={'A3': [['abc', '0.25'], ['abd', '0.25'], ['abe', '0.25'], ['abf', '0.25']],
+                                         'C3': [['LLL', '0.5'], ['ULL', '0.5']], 'D2': [['11', '0.3'], ['22', '0.3'], ['33', '0.3'], ['44', '0.1']]},
+                        grammar=[['A3D2', '0.5'], ['D2', '0.5']], prince=[['A3', '0.5'], ['D2', '0.5']])
+            spec.pop('decoy_files', None); spec.pop('listed_twice', None); spec.pop('no_final_newline', None)
         dist.setdefault('omen_ngram', {})[str(2 + i % 4)] = dist.get('omen_ngram', {}).get(str(2 + i % 4), 0) + 1
         name = f"pr{i % 6}"
         d = common.install_ruleset(spec, name)
@@ -219,7 +225,9 @@ def run(ctx):
                     sizes.add(acc + len(g[2]) - 1)
                 acc += len(g[2])
             sizes = sorted(s for s in sizes if s >= 1)
-            if ctx.quick and len(sizes) > 6:
+            if i == 2:
+                sizes = list(range(1, total + 2))
+            elif ctx.quick and len(sizes) > 6:
                 sizes = sorted(rng.sample(sizes, 6))
             for n in sizes:
                 out, err, rc = common.run_cli('prince_ling.py', ['-r', name, '-s', str(n)] + flags, stdin='devnull')
